@@ -66,6 +66,10 @@ func (m *Mutex) Unlock() {
 	if w != nil {
 		close(w)
 	}
+	// what a goroutine does right after leaving a critical section (reading
+	// a field it should have copied while it held the lock) is only exposed
+	// if others can run at this point
+	Pre("unlock")
 }
 
 // RWMutex replaces sync.RWMutex.
@@ -119,6 +123,7 @@ func (m *RWMutex) Unlock() {
 	if w != nil {
 		close(w)
 	}
+	Pre("unlock")
 }
 
 func (m *RWMutex) RLock() {
@@ -155,6 +160,7 @@ func (m *RWMutex) RUnlock() {
 	if w != nil {
 		close(w)
 	}
+	Pre("runlock")
 }
 
 func (m *RWMutex) RLocker() sync.Locker { return (*rlocker)(m) }
